@@ -16,7 +16,8 @@ type st = {
 let empty_root : Spec.bucket = (BinNums.N0, [])
 
 let run mode file =
-  let spec = (mode = "c04" || mode = "c08" || mode = "c14") in
+  let spec = (mode = "c04" || mode = "c08" || mode = "c14" || mode = "c20") in
+  let prev_version = ref empty_root in
   let acct = (mode = "c07" || mode = "c08") in
   let meta_written = ref false and fail_after_meta = ref false and fail_kind = ref "" in
   let d5 = ref false and unmapped = ref false in
@@ -106,6 +107,7 @@ let run mode file =
          (match s.work with
           | Some w -> if snd w <> [] then s.stale <- true;
             let prev_committed = Some s.committed in
+            prev_version := s.committed;
             s.committed <- w; s.work <- None;
             (match res with
              | ["ok"] -> ()
@@ -151,6 +153,40 @@ let run mode file =
        | ["check"; r] when spec && tx_root r = None -> expect res_s "notx" "check"
        | ["check"; _] -> bump "check";
          if mode <> "c12" then (match res with "ok" :: "0" :: _ -> () | "ok" :: n :: first :: _ -> propfail "tx_check_clean" (n ^ " problems, first: " ^ first) | ["notx"] -> () | _ -> mismatch "check" res_s "ok 0")
+       | ["surg"; what] -> bump ("surg-" ^ what);
+         (match res with
+          | "ok" :: fields ->
+            let kv = kv_of fields in
+            flag ("surg-" ^ what);
+            if get kv "src" <> "true" then propfail "source_unchanged" "";
+            let expect = if what = "revert" then !prev_version else s.committed in
+            let want = digest_or_text (dump_root expect) in
+            if get kv "dump" <> want then propfail ("surgery_content_" ^ what) (Printf.sprintf "output=%s expected=%s" (cut (get kv "dump")) (cut want));
+            if get kv "check" <> "0" then propfail ("surgery_check_" ^ what) (get kv "check");
+            let (rd, _) = load_rd (get kv "img") in
+            let psn = n_of_int (int_of_string (get kv "ps")) in
+            let v0 = Layout.meta_valid rd psn BinNums.N0 and v1 = Layout.meta_valid rd psn (n_of_int 1) in
+            if not (v0 && v1) then propfail "surgery_metas_valid" what;
+            let m0 = Layout.rd_meta rd psn BinNums.N0 and m1 = Layout.rd_meta rd psn (n_of_int 1) in
+            let nofl m = string_of_n m.Layout.m_fl = "18446744073709551615" in
+            (match what with
+             | "abandon" -> if not (nofl m0 && nofl m1) then propfail "abandon_clears_both" ""
+             | "revert" -> if string_of_n m0.Layout.m_txid <> string_of_n m1.Layout.m_txid then propfail "revert_copies_older" (Printf.sprintf "txids %s / %s" (string_of_n m0.Layout.m_txid) (string_of_n m1.Layout.m_txid))
+             | _ -> ());
+            (match Layout.dec_db rd psn (nat_of_int 200) with
+             | None -> propfail "surgery_decodes" what
+             | Some v ->
+               if digest_or_text (dump_root v.Layout.v_root) <> want then propfail ("surgery_decoded_content_" ^ what) "";
+               (match v.Layout.v_free with
+                | Some free ->
+                  if what = "abandon" then propfail "abandon_clears_both" "a freelist is still referenced";
+                  if not (Layout.accounted v free) then propfail ("surgery_accounting_" ^ what) ""
+                | None -> if what = "rebuild" || what = "abandon+rebuild" then propfail "rebuild_persists_freelist" ""))
+          | e :: _ when String.length e > 4 && String.sub e 0 4 = "err:" ->
+            (* rebuild refuses a file that still has a freelist *)
+            if what = "rebuild" && not s.nfs then flag "surg-rebuild-refused"
+            else propfail ("surgery_fails_" ^ what) e
+          | _ -> mismatch "surg" res_s "ok")
        | ["backupdone"; r] -> bump "backup";
          (match res with
           | "ok" :: fields ->
